@@ -146,14 +146,16 @@ ilu_cpivotL(
     if (milu == SMILU_2 || milu == SMILU_3) pivmax += drop_sum.r;
 
     /* Test for singularity */
-    if (pivmax < 0.0) {
+    if (pivmax < 0.0 && ptr0 == SLU_EMPTY) { /* no candidate row at all */
     	/*fprintf(stderr, "[0]: jcol=%d, SINGULAR!!!\n", jcol);
 	fflush(stderr);
 	exit(1); */
 	*usepr = 0;
 	return (jcol+1);
     }
-    if ( pivmax == 0.0 ) {
+    /* A column whose candidates are all zero, or all NaN (pivmax stayed
+       negative or became NaN), gets a replacement pivot. */
+    if ( !(pivmax > 0.0) ) {
 	if (diag != SLU_EMPTY)
 	    *pivrow = lsub_ptr[pivptr = diag];
 	else if (ptr0 != SLU_EMPTY)
